@@ -118,6 +118,8 @@ func startEnv(out string) *env {
 		hx.Fatal("server returned before starting the listener")
 	}
 	e.l = l
+	// test aid for seeded mutations of /repo: where the decoy listens
+	os.Setenv("C15_DECOY_PORT", fmt.Sprint(e.ports[pDecoy]))
 	e.h = &httpEnv{l: l, be: e.httpBE, port: 8080, portNP: e.ports[pNP], decoy: e.decoy, idleDur: 600 * time.Millisecond}
 	return e
 }
@@ -139,9 +141,6 @@ func main() {
 	}
 	e := startEnv(out)
 	defer e.l.Stop()
-	if replay == nil || replay.Part == "dial" {
-		runDialPart(o, r, e, replay)
-	}
 	if replay == nil || replay.Part == "http" {
 		runHTTPPart(o, r, e, replay)
 	}
@@ -150,6 +149,10 @@ func main() {
 	}
 	if replay == nil || replay.Part == "ssh" {
 		runSSHPart(o, r, e, replay)
+	}
+	// last: the dial part calls Dial with configurations of its own (none names the decoy)
+	if replay == nil || replay.Part == "dial" {
+		runDialPart(o, r, e, replay)
 	}
 }
 
@@ -174,7 +177,13 @@ func runHTTPPart(o hx.Opts, r *hx.Rand, e *env, replay *Input) {
 		for k := i; k < j; k++ {
 			ids = append(ids, fmt.Sprintf("h%d", k))
 		}
+		d0 := e.decoy.count()
 		obs, crash := e.h.runGroup(ins[i:j], ids)
+		if e.decoy.count() > d0 { // somebody talked to the decoy while this group ran
+			for k := range obs {
+				obs[k].BPeersOK = false
+			}
+		}
 		for k := i; k < j; k++ {
 			in := ins[k]
 			dist["class:"+in.Class]++
